@@ -96,6 +96,25 @@ pub proof fn lemma_sorted_seq<K: Ord>(q: Seq<K>, s: Set<K>)
 }
 
 
+// for temporaries that cannot be named in a hint (`map.keys()` / `set.iter()` passed straight into an adaptor): EVERY strictly
+// increasing enumeration of `dom` by references is the sorted sequence
+pub proof fn lemma_keys_sorted_all<K: Ord>(dom: Set<K>)
+    requires obeys_cmp::<K>(), lt_laws::<K>()
+    ensures forall|rem: Seq<&K>| #[trigger] increasing_seq(rem) && rem.unref().to_set() == dom ==> rem.unref() == sorted_seq(dom)
+{
+    assert forall|rem: Seq<&K>| #[trigger] increasing_seq(rem) && rem.unref().to_set() == dom implies rem.unref() == sorted_seq(dom) by {
+        lemma_unref_increasing::<K>(rem);
+        let ks = rem.unref();
+        assert(ks.no_duplicates()) by {
+            broadcast use axiom_increasing_seq_meaning;
+            assert forall|i: int, j: int| 0 <= i < ks.len() && 0 <= j < ks.len() && i != j implies ks[i] != ks[j] by {
+                if i < j { assert(lt(ks[i], ks[j])); } else { assert(lt(ks[j], ks[i])); }
+            }
+        }
+        lemma_sorted_seq::<K>(ks, dom);
+    }
+}
+
 // what `BTreeMap::iter()` yields: the (key, value) pairs in ascending key order = sorted_seq of the domain
 pub proof fn lemma_btree_iter_sorted<K: Ord, V>(m: Map<K, V>, rem: Seq<(&K, &V)>)
     requires obeys_cmp::<K>(), lt_laws::<K>(),
